@@ -103,7 +103,10 @@ def _instrument_coordinator(build, path: str, seed) -> None:
 
         def ready_to_read(conns, timeout=None):
             # a slow coordinator: replies of several workers may be pending in the same poll
-            _time.sleep(prng.choice([0, 0, 0.05, 0.15, 0.4]))
+            # VERIF_COORD_SLOW: a coordinator that is slow at every poll, so that both replies of a worker
+            # (interface, then implementation) are usually pending in the same poll
+            slow = os.environ.get("VERIF_COORD_SLOW")
+            _time.sleep(float(slow) if slow else prng.choice([0, 0, 0.05, 0.15, 0.4]))
             return orig_rtr(conns, timeout)
         build.ready_to_read = ready_to_read
 
